@@ -29,10 +29,10 @@ man = {
     "version": 1,
     "setup_cmd": "./check --setup",
     "hooks": {
-        "guard": "LJT_VERIF",
-        "enable": "one hook: jpeg_gen_optimal_table() (src/jchuff.c) calls ljt_verif_codesize_hook(codesize, n) under #ifdef LJT_VERIF; the library itself is never built with the guard - the C19 harness compiles a private, renamed copy of jchuff.c from the working tree with -DLJT_VERIF (harness/ops_c19.c); everything else links the static libraries built from /repo's working tree and reaches internals through the repo's own private headers",
+        "guard": "LJT_VERIF (jchuff.c) / LJT_VERIF_POOLS (jmemmgr.c)",
+        "enable": "two hooks, both add-only and off by default. (1) LJT_VERIF_POOLS: alloc_small() (src/jmemmgr.c) asks for no pool slop, so that every small object of the library's pools is a malloc block of its own; the 'sanp' build variant (vlib/common.py: the san variant's cmake flags plus -DLJT_VERIF_POOLS) is used by C01, C11, C12 and C17 next to the unmodified san and simd builds, so that ASan also reports overruns of objects that otherwise share one pool block. (2) LJT_VERIF: jpeg_gen_optimal_table() (src/jchuff.c) calls ljt_verif_codesize_hook(codesize, n) under #ifdef LJT_VERIF; the library itself is never built with the guard - the C19 harness compiles a private, renamed copy of jchuff.c from the working tree with -DLJT_VERIF (harness/ops_c19.c); everything else links the static libraries built from /repo's working tree and reaches internals through the repo's own private headers",
         "baseline_off_cmd": "cmake -G Ninja -S /repo -B /repo/_build -DCMAKE_BUILD_TYPE=Release && cmake --build /repo/_build && ctest --test-dir /repo/_build -j8 --timeout 900",
-        "source_commits": ["d486067"],
+        "source_commits": ["0d680ea", "4c08660"],
         "add_only": True,
     },
     "engines": [{
